@@ -43,3 +43,7 @@ Definition macro_row (variants : list pvariant) (m : string * frag) : bool :=
 Definition macro_table_ok (variants : list pvariant) (macros : list (string * frag)) : bool :=
   forallb (macro_row variants) macros
   && forallb (fun v => existsb (fun m => String.eqb (fst m) (pv_macro v)) macros) variants.
+
+Definition pvariant_eqb (a b : pvariant) : bool :=
+  String.eqb (pv_name a) (pv_name b) && String.eqb (pv_version a) (pv_version b)
+  && String.eqb (pv_abbr a) (pv_abbr b) && String.eqb (pv_macro a) (pv_macro b).
